@@ -411,6 +411,45 @@ def scenario(exe, r, run, stats, witness):
     return w, sig
 
 
+def self_delete_case(exe, r, run, stats, witness):
+    """resources that come into being on demand (unknown-resource handler) and are deleted by
+    their own DELETE handler, as in the coap-server example: the library must not look at the
+    resource again once the handler has returned - unicast and multicast requests, with and
+    without per-resource multicast handling, observers present or not"""
+    w = world.World(exe, seed=r.getrandbits(30))
+    sim = world.Sim(w, latency=1)
+    witness["script"] = w.script
+    kw = {"mcast_per_resource": 1} if r.random() < 0.6 else {}
+    sim.add_node(0, **kw)
+    sim.cmd("ep 0 udp %s" % EP4)
+    sim.cmd("res 0 - kind=unknown dyn=1 flags=%d" % r.choice([0, 0x8, 0x8 | 0x40, 0x8 | 0x80]))
+    peer = "10.0.5.9:41000"
+    sim.peers[peer] = lambda *a: None
+    mid = 100
+    for k in range(r.choice([1, 2, 4])):
+        name = b"d%d" % k
+        mid += 1
+        sim.inject(peer, EP4, cw.encode(cw.msg(3, type=0, mid=mid, token=bytes([1, k]),
+                                               options=[(11, name)], payload=b"x"), "udp"))
+        sim.run(until=sim.elapsed() + 5, quiesce=False)
+        if r.random() < 0.4:
+            mid += 1
+            sim.inject(peer, EP4, cw.encode(cw.msg(1, type=0, mid=mid, token=bytes([2, k]),
+                                                   options=[(6, b""), (11, name)]), "udp"))
+            sim.run(until=sim.elapsed() + 5, quiesce=False)
+        mid += 1
+        mc = r.random() < 0.5
+        sim.inject(peer, "224.0.1.187:5683" if mc else EP4, cw.encode(
+            cw.msg(4, type=1 if mc else r.choice([0, 1]), mid=mid, token=bytes([3, k]),
+                   options=[(11, name)] + ([(258, bytes([r.choice([2, 8, 26])]))]
+                                           if r.random() < 0.3 else [])), "udp"))
+        sim.run(until=sim.elapsed() + 6000, quiesce=False)
+        stats["self_deletions"] = stats.get("self_deletions", 0) + sum(
+            1 for e in sim.log if e["e"] == "req" and e.get("code") == 4 and e["res"] == name.decode())
+    world.teardown_check(run, "C12", w, witness)
+    return w, ("self-delete", bool(kw))
+
+
 def work(job):
     items, exe = job
     run = common.Run("C12", "quick", "exploration")
@@ -423,7 +462,10 @@ def work(job):
         witness = {"item": it, "seed": common.seed()}
         w = None
         try:
-            w, sig = scenario(exe, r, run, stats, witness)
+            if it % 12 == 11:
+                w, sig = self_delete_case(exe, r, run, stats, witness)
+            else:
+                w, sig = scenario(exe, r, run, stats, witness)
             sigs.add(sig)
         except world.WorldCrash as e:
             world.crash_violation(run, "C12", e, witness)
@@ -439,7 +481,9 @@ def main(tier):
                 "and IPv6 endpoints) to plain / observable / separate-response / reference-taking "
                 "resources, notifications, application release, deregistration, virtual-time "
                 "jumps to 1 ms before / at / after the 1, 30 and 300 s session timeouts, "
-                "max_idle_sessions 0/1/3/10, teardown at a random step; distinct_nontrivial = "
+                "max_idle_sessions 0/1/3/10, teardown at a random step; one case in twelve: "
+                "resources created on demand and deleted by their own DELETE handler (unicast / "
+                "multicast, per-resource multicast handling on/off, observers); distinct_nontrivial = "
                 "distinct (timeout, idle limit, peers, length, early teardown, silent peers)")
     run.assumptions = ["monitor's pin model: application reference, observation, pending async "
                        "entry, unacknowledged CON queued by the server",
@@ -461,4 +505,5 @@ def main(tier):
     run.require("sessions_created", stats.get("sessions_created", 0), 1000)
     run.require("reclaimed_after_timeout", stats.get("reclaimed_after_timeout", 0), 100)
     run.require("evicted", stats.get("evicted", 0), 50)
+    run.require("self_deletions", stats.get("self_deletions", 0), 20)
     return run.finish()
